@@ -17,7 +17,8 @@ LEVEL_NOTE = ('mapping keys follow the API key semantics (dict membership = node
 RULE = ('trees: bodies/specs of E1-generated routines decorated with pragmas/comments (FP frontend) and hand-assembled '
         'trees (Section, Associate, Loop, WhileLoop, Conditional/else-if, MultiConditional, MaskedStatement, Forall, '
         'PragmaRegion, Interface, TypeDef, Enumeration, comments, pragmas, same-object and value-equal duplicates) over '
-        'a zoo of parsed statements; per tree several random mappings (to None, node, tuple, tuple containing the '
+        'a zoo of parsed statements; per tree several random mappings (to None, node -- 22 % of the fresh replacement '
+        'nodes are falsy or empty containers: empty Section, blank-comment Section, empty Associate / Loop --, tuple, tuple containing the '
         'key, empty tuple, tuple keys, nested keys) x transformer class x inplace/rebuild_scopes/invalidate_source, '
         'or start/stop sets for the masked variants. Non-trivial = the reference result differs from the input tree; '
         'distinct = hash of (tree encoding, mapping description, options).')
@@ -551,6 +552,26 @@ def fresh_node(rng, ctx, tag):
     ctx['fresh_counter'] = ctx.get('fresh_counter', 0) + 1
     tag = ctx['fresh_counter'] * 100 + tag % 100
     k = rng.choice(['comment', 'assign', 'loop', 'section', 'pragma', 'cond', 'assoc'])
+    if rng.random() < 0.22:
+        # replacement nodes that are falsy / empty containers (a Section behaves like its body: len() == 0 makes it
+        # falsy): a handle tested with 'if not handle' instead of 'is None' would be taken for "remove the node"
+        k = rng.choice(['empty_section', 'empty_section', 'empty_labelled_section', 'blank_comment_section',
+                        'empty_assoc', 'empty_loop', 'blank_comment'])
+        if ctx.get('fresh_feats') is not None:
+            ctx['fresh_feats'].add('fresh:' + k)
+        if k == 'empty_section':
+            return ir.Section(body=())
+        if k == 'empty_labelled_section':
+            return ir.Section(body=(), label=f'e{tag}')
+        if k == 'blank_comment_section':
+            return ir.Section(body=(ir.Comment(text=''),))
+        if k == 'blank_comment':
+            return ir.Comment(text='')
+        if k == 'empty_loop':
+            return ir.Loop(variable=sym.Variable(name='j', scope=scope),
+                           bounds=sym.LoopRange((sym.IntLiteral(1), sym.IntLiteral(tag + 2))), body=())
+        return ir.Associate(associations=((sym.Variable(name='n', scope=scope), sym.Variable(name=f'nn{tag}')),),
+                            body=(), parent=scope)
     if k == 'comment':
         return ir.Comment(text=f'! new {tag}')
     if k == 'pragma':
@@ -1217,6 +1238,7 @@ def run_case(idx, rng, tier, ctx):
     import collections
     feats = set()
     ctx['fresh_counter'] = 0
+    ctx['fresh_feats'] = feats
     res = {'sig': None, 'nontrivial': False, 'violations': [], 'inconclusive': None,
            'counters': collections.Counter(), 'features': []}
     try:
